@@ -1,6 +1,7 @@
 package route
 
 import (
+	"errors"
 	"fmt"
 	"sync"
 	"sync/atomic"
@@ -53,6 +54,19 @@ type KafkaMdm struct {
 // NewKafkaMdm creates a special route that writes to a grafana.net datastore
 // We will automatically run the route and the destination
 func NewKafkaMdm(key string, matcher matcher.Matcher, topic, codec, schemasFile, partitionBy string, brokers []string, bufSize, orgId, flushMaxNum, flushMaxWait, timeout int, blocking bool, tlsEnabled, tlsSkipVerify bool, tlsClientCert, tlsClientKey string, saslEnabled bool, saslMechanism string, saslUsername, saslPassword string) (Route, error) {
+	// these feed channel and slice sizes, tickers and timeouts. nonsensical values would crash us later
+	switch {
+	case len(brokers) == 0 || brokers[0] == "":
+		return nil, errors.New("NewKafkaMdm: at least one broker is needed")
+	case bufSize < 0:
+		return nil, errors.New("NewKafkaMdm: bufSize must be >= 0")
+	case flushMaxNum < 1:
+		return nil, errors.New("NewKafkaMdm: flushMaxNum must be >= 1")
+	case flushMaxWait <= 0:
+		return nil, errors.New("NewKafkaMdm: flushMaxWait must be > 0")
+	case timeout <= 0:
+		return nil, errors.New("NewKafkaMdm: timeout must be > 0")
+	}
 	schemas, err := getSchemas(schemasFile)
 	if err != nil {
 		return nil, err
@@ -93,7 +107,7 @@ func NewKafkaMdm(key string, matcher matcher.Matcher, topic, codec, schemasFile,
 
 	r.partitioner, err = partitioner.NewKafka(partitionBy)
 	if err != nil {
-		log.Fatalf("kafkaMdm %q: failed to initialize partitioner. %s", r.key, err)
+		return nil, fmt.Errorf("kafkaMdm %q: failed to initialize partitioner. %s", r.key, err)
 	}
 
 	// We are looking for strong consistency semantics.
@@ -104,7 +118,7 @@ func NewKafkaMdm(key string, matcher matcher.Matcher, topic, codec, schemasFile,
 	if tlsEnabled {
 		tlsConfig, err := tls.NewConfig(tlsClientCert, tlsClientKey)
 		if err != nil {
-			log.Fatalf("Failed to create TLS config: %s", err)
+			return nil, fmt.Errorf("kafkaMdm %q: failed to create TLS config: %s", r.key, err)
 		}
 
 		config.Net.TLS.Enable = true
@@ -120,7 +134,7 @@ func NewKafkaMdm(key string, matcher matcher.Matcher, topic, codec, schemasFile,
 			config.Net.SASL.Mechanism = sarama.SASLTypeSCRAMSHA512
 			config.Net.SASL.SCRAMClientGeneratorFunc = func() sarama.SCRAMClient { return &XDGSCRAMClient{HashGeneratorFcn: SHA512} }
 		} else if saslMechanism != "" {
-			log.Fatalf("Failed to recognize saslMechanism: '%s'", saslMechanism)
+			return nil, fmt.Errorf("kafkaMdm %q: failed to recognize saslMechanism: '%s'", r.key, saslMechanism)
 		}
 		config.Net.SASL.Enable = true
 		config.Net.SASL.User = saslUsername
@@ -131,14 +145,14 @@ func NewKafkaMdm(key string, matcher matcher.Matcher, topic, codec, schemasFile,
 	config.Producer.Retry.Max = 10                   // Retry up to 10 times to produce the message
 	config.Producer.Compression, err = getCompression(codec)
 	if err != nil {
-		log.Fatalf("kafkaMdm %q: %s", r.key, err)
+		return nil, fmt.Errorf("kafkaMdm %q: %s", r.key, err)
 	}
 	config.Producer.Return.Successes = true
 	config.Producer.Timeout = time.Duration(timeout) * time.Millisecond
 	config.Producer.Partitioner = sarama.NewManualPartitioner
 	err = config.Validate()
 	if err != nil {
-		log.Fatalf("kafkaMdm %q: failed to validate kafka config. %s", r.key, err)
+		return nil, fmt.Errorf("kafkaMdm %q: failed to validate kafka config. %s", r.key, err)
 	}
 	r.saramaCfg = config
 
